@@ -84,6 +84,16 @@ class Host:
             k += w
         if kind == "repeat2" and len(widths) >= 2 and widths[0] == widths[1]:
             self.operands[1] = list(self.operands[0])  # the same gates as both operands
+        if kind in ("rotated2", "reversed2", "other-repeats2") and len(widths) >= 2 and widths[0] == widths[1]:
+            # the second operand is made of the same gates as the first, in another order or with other repeats
+            a = list(self.operands[0])
+            if kind == "rotated2":
+                self.operands[1] = a[1:] + a[:1]
+            elif kind == "reversed2":
+                self.operands[1] = a[::-1]
+            elif len(a) >= 3:
+                self.operands[0] = [a[0], a[0]] + a[1:-1]
+                self.operands[1] = [a[0]] + a[1:-1] + [a[-2]]
         self._total = total
         self.refresh()
 
